@@ -1,5 +1,6 @@
 """C11 adapters: call the real solve_<puzzle> on a problem given as canonical integers (spec/MC_Puzzle.tla) and project
 the answer keys to the agreed order (frames: the edge order of graph._from_grid_frame = GraphDefs!Lattice)."""
+import json
 import warnings
 
 YEMPTY, YUNKNOWN = -1000, -999
@@ -37,8 +38,20 @@ def yaj(v):
     return _YDIR[v // 100] + str(v % 100)
 
 
+TWICE = [False]
+
+
+def _call(fn, *args):
+    """in every fourth case the solver function is called twice with the SAME argument objects and the second answer is
+    the one that is judged: a solver must not leave anything behind in the caller's problem"""
+    if TWICE[0]:
+        fn(*args)
+    return fn(*args)
+
+
 def solve(puzzle, h, w, problem):
     """-> (is_sat, facts)"""
+    TWICE[0] = (len(json.dumps(problem)) + h) % 4 == 0
     import z3
     z3.set_param("timeout", 120000)
     from cspuz.puzzle import (slitherlink, masyu, yajilin, simpleloop, nurikabe, norinori, akari, star_battle, yinyang,
@@ -51,35 +64,41 @@ def solve(puzzle, h, w, problem):
     with warnings.catch_warnings():
         warnings.simplefilter("ignore")
         if puzzle == "slitherlink":
-            sat, fr = slitherlink.solve_slitherlink(h, w, grid(problem, h, w))
+            sat, fr = _call(slitherlink.solve_slitherlink, h, w, grid(problem, h, w))
             return sat, frame_facts(fr) if sat else []
         if puzzle == "masyu":
-            sat, fr = masyu.solve_masyu(h, w, grid(problem, h, w))
+            sat, fr = _call(masyu.solve_masyu, h, w, grid(problem, h, w))
             return sat, frame_facts(fr) if sat else []
         if puzzle == "yajilin":
-            sat, fr, black = yajilin.solve_yajilin(h, w, grid(problem, h, w, yaj))
+            sat, fr, black = _call(yajilin.solve_yajilin, h, w, grid(problem, h, w, yaj))
             return sat, (frame_facts(fr) + arr_facts(black)) if sat else []
         if puzzle == "simpleloop":
             cells, pv = problem[0], problem[1][0]
-            sat, fr = simpleloop.solve_simpleloop(h, w, grid(cells, h, w), (pv // w, pv % w))
+            g = grid(cells, h, w)
+            if h * w >= 2 and (pv + sum(cells)) % 2 == 0:
+                # the same grid object was solved before with another pivot (a caller trying several pivots on one board):
+                # an earlier call must not leave anything behind in the caller's problem
+                p0 = (pv + 1) % (h * w)
+                simpleloop.solve_simpleloop(h, w, g, (p0 // w, p0 % w))
+            sat, fr = _call(simpleloop.solve_simpleloop, h, w, g, (pv // w, pv % w))
             return sat, frame_facts(fr) if sat else []
         if puzzle == "nurikabe":
-            sat, white = nurikabe.solve_nurikabe(h, w, grid(problem, h, w))
+            sat, white = _call(nurikabe.solve_nurikabe, h, w, grid(problem, h, w))
             return sat, arr_facts(white) if sat else []
         if puzzle == "norinori":
-            sat, a = norinori.solve_norinori(h, w, rooms(problem[0]))
+            sat, a = _call(norinori.solve_norinori, h, w, rooms(problem[0]))
             return sat, arr_facts(a) if sat else []
         if puzzle == "akari":
-            sat, a = akari.solve_akari(h, w, grid(problem, h, w))
+            sat, a = _call(akari.solve_akari, h, w, grid(problem, h, w))
             return sat, arr_facts(a) if sat else []
         if puzzle == "starbattle":
-            sat, a = star_battle.solve_star_battle(h, grid(problem[0], h, w), problem[1][0])
+            sat, a = _call(star_battle.solve_star_battle, h, grid(problem[0], h, w), problem[1][0])
             return sat, arr_facts(a) if sat else []
         if puzzle == "yinyang":
-            sat, a = yinyang.solve_yinyang(h, w, grid(problem, h, w))
+            sat, a = _call(yinyang.solve_yinyang, h, w, grid(problem, h, w))
             return sat, arr_facts(a) if sat else []
         if puzzle == "creek":
-            sat, a = creek.solve_creek(h, w, grid(problem, h + 1, w + 1))
+            sat, a = _call(creek.solve_creek, h, w, grid(problem, h + 1, w + 1))
             return sat, arr_facts(a) if sat else []
         if puzzle == "heyawake":
             rs, cl = rooms(problem[0]), list(problem[1])
@@ -89,45 +108,45 @@ def solve(puzzle, h, w, problem):
                 if len(room) == (max(ys) - min(ys) + 1) * (max(xs) - min(xs) + 1):
                     rects.append((min(ys), min(xs), max(ys) + 1, max(xs) + 1, v))
             if len(rects) == len(rs) and (sum(problem[0]) + len(rs)) % 2 == 0:
-                sat, a = heyawake.solve_heyawake(h, w, rects)     # the other documented form: a list of rectangles
+                sat, a = _call(heyawake.solve_heyawake, h, w, rects)     # the other documented form: a list of rectangles
             else:
-                sat, a = heyawake.solve_heyawake(h, w, rs, cl)
+                sat, a = _call(heyawake.solve_heyawake, h, w, rs, cl)
             return sat, arr_facts(a) if sat else []
         if puzzle == "lits":
-            sat, a = lits.solve_lits(h, w, rooms(problem[0]))
+            sat, a = _call(lits.solve_lits, h, w, rooms(problem[0]))
             return sat, arr_facts(a) if sat else []
         if puzzle == "nurimisaki":
-            sat, a = nurimisaki.solve_nurimisaki(h, w, grid(problem, h, w))
+            sat, a = _call(nurimisaki.solve_nurimisaki, h, w, grid(problem, h, w))
             return sat, arr_facts(a) if sat else []
         if puzzle == "putteria":
-            sat, a = putteria.solve_putteria(h, w, rooms(problem[0]))
+            sat, a = _call(putteria.solve_putteria, h, w, rooms(problem[0]))
             return sat, arr_facts(a) if sat else []
         if puzzle == "aquarium":
-            sat, a = aquarium.solve_aquarium(h, w, rooms(problem[0]), list(problem[1][:h]), list(problem[1][h:]))
+            sat, a = _call(aquarium.solve_aquarium, h, w, rooms(problem[0]), list(problem[1][:h]), list(problem[1][h:]))
             return sat, arr_facts(a) if sat else []
         if puzzle == "gokigen":
-            sat, a = gokigen.solve_gokigen(h, w, grid(problem, h + 1, w + 1))
+            sat, a = _call(gokigen.solve_gokigen, h, w, grid(problem, h + 1, w + 1))
             return sat, arr_facts(a) if sat else []
         if puzzle == "sudoku":
             n = h
-            sat, a = sudoku.solve_sudoku(grid(problem, n * n, n * n), n)
+            sat, a = _call(sudoku.solve_sudoku, grid(problem, n * n, n * n), n)
             return sat, int_facts(a) if sat else []
         if puzzle == "building":
             n = h
-            sat, a = building.solve_building(n, list(problem[0:n]), list(problem[n:2 * n]), list(problem[2 * n:3 * n]), list(problem[3 * n:4 * n]))
+            sat, a = _call(building.solve_building, n, list(problem[0:n]), list(problem[n:2 * n]), list(problem[2 * n:3 * n]), list(problem[3 * n:4 * n]))
             return sat, int_facts(a) if sat else []
         if puzzle == "doppelblock":
             n = h
-            sat, a = doppelblock.solve_doppelblock(n, list(problem[0:n]), list(problem[n:2 * n]))
+            sat, a = _call(doppelblock.solve_doppelblock, n, list(problem[0:n]), list(problem[n:2 * n]))
             return sat, int_facts(a) if sat else []
         if puzzle == "fillomino":
-            sat, a = fillomino.solve_fillomino(h, w, grid(problem, h, w))
+            sat, a = _call(fillomino.solve_fillomino, h, w, grid(problem, h, w))
             return sat, int_facts(a) if sat else []
         if puzzle == "view":
-            sat, nums, has = view.solve_view(h, w, grid(problem, h, w))
+            sat, nums, has = _call(view.solve_view, h, w, grid(problem, h, w))
             return sat, (int_facts(nums) + arr_facts(has)) if sat else []
         if puzzle == "geradeweg":
-            sat, fr = geradeweg.solve_geradeweg(h, w, grid(problem, h, w))
+            sat, fr = _call(geradeweg.solve_geradeweg, h, w, grid(problem, h, w))
             return sat, frame_facts(fr) if sat else []
         if puzzle == "castle_wall":
             def arrow(v):
@@ -137,17 +156,17 @@ def solve(puzzle, h, w, problem):
                 return _YDIR[d] + str(n)
             def colour(v):
                 return {0: None, 1: True, 2: False}[v // 1000] if v else None
-            sat, fr = castle_wall.solve_castle_wall(h, w, grid(problem, h, w, arrow), grid(problem, h, w, colour))
+            sat, fr = _call(castle_wall.solve_castle_wall, h, w, grid(problem, h, w, arrow), grid(problem, h, w, colour))
             return sat, frame_facts(fr) if sat else []
         if puzzle == "compass":
             pr = [(c[0] // w, c[0] % w, c[1], c[2], c[3], c[4]) for c in problem]     # (y, x, up, left, down, right)
-            sat, a = compass.solve_compass(h, w, pr)
+            sat, a = _call(compass.solve_compass, h, w, pr)
             return sat, int_facts(a) if sat else []
         if puzzle == "fivecells":
-            sat, borders = fivecells.solve_fivecells(h, w, grid(problem, h, w))
+            sat, borders = _call(fivecells.solve_fivecells, h, w, grid(problem, h, w))
             return sat, [tri(v.sol) for v in borders] if sat else []
         if puzzle == "shakashaka":
-            sat, a = shakashaka.solve_shakashaka(h, w, grid(problem, h, w, lambda v: None if v == -5 else v))
+            sat, a = _call(shakashaka.solve_shakashaka, h, w, grid(problem, h, w, lambda v: None if v == -5 else v))
             return sat, int_facts(a) if sat else []
     raise ValueError("no adapter for " + puzzle)
 
